@@ -4,16 +4,17 @@
 # runs the quick checks against that tree, and removes the worktree.
 # Evidence and replays of these runs go to /tmp, not to /verif.
 patch="$(readlink -f "$1")"; shift
+root="$(cd "$(dirname "$0")/.." && pwd)"
 wt="/tmp/mutant-wt.$$"
 git -C /repo worktree add -q --detach "$wt" HEAD || exit 2
 if ! git -C "$wt" apply "$patch" 2>/dev/null && ! git -C "$wt" apply --3way "$patch"; then echo "patch does not apply"; git -C /repo worktree remove --force "$wt"; exit 2; fi
 export VERIF_REPO="$wt" VERIF_EVIDENCE_DIR=/tmp/mutant-evidence.$$ VERIF_REPLAY_DIR=/tmp/mutant-replays.$$
 for p in "$@"; do
-  /verif/check "$p" ${VERIF_MUTANT_TIER:-quick} > /tmp/mutant.$$.out 2>&1; rc=$?
+  "$root/check" "$p" ${VERIF_MUTANT_TIER:-quick} > /tmp/mutant.$$.out 2>&1; rc=$?
   echo "== $(basename "$patch") $p rc=$rc $(grep -c '^VIOLATION' /tmp/mutant.$$.out) violation line(s)"
   grep '^VIOLATION\|^INFRA' /tmp/mutant.$$.out | head -3
 done
 rm -f /tmp/mutant.$$.out
 if [ -z "$VERIF_MUTANT_KEEP" ]; then rm -rf /tmp/mutant-evidence.$$ /tmp/mutant-replays.$$; fi
 git -C /repo worktree remove --force "$wt"
-rm -f /verif/build/props._tmp_mutant_wt_$$*.test /verif/build/alt._tmp_mutant_wt_$$* /verif/build/evalfilter._tmp_mutant_wt_$$
+rm -f "$root"/build/props._tmp_mutant_wt_$$*.test "$root"/build/alt._tmp_mutant_wt_$$* "$root"/build/evalfilter._tmp_mutant_wt_$$
